@@ -1,5 +1,7 @@
 import PyttbModel.Core.Codec
 import PyttbModel.Spec.Symmetric
+import PyttbModel.Ops.SymmetrizeKruskal
+import PyttbModel.Driver.C08
 open Lean Pyttb Pyttb.Codec Pyttb.Sym
 namespace Pyttb.Driver
 
@@ -37,6 +39,22 @@ def ops15 : List (String × Op) := [
   ("sym_ksymmetrize_core", fun j => do
     let Kn ← field j "Kn" >>= asKtensor
     .ok (ktensorJ (ksymmetrizeCore Kn))),
+  ("sym_ksymmetrize_aligned", fun j => do
+    -- the symmetrisation step on a normalised copy `Kn`, the decidable hypothesis `kaligned Kn` of
+    -- C15_kruskal_keeps_value, and the conclusion of that theorem evaluated exactly: does the result denote
+    -- the array of `Kn`?
+    let Kn ← field j "Kn" >>= asKtensor
+    let R := ksymmetrizeCore Kn
+    .ok (Json.mkObj [("aligned", Json.bool (kaligned Kn)), ("R", ktensorJ R),
+      ("same_array", Json.bool (sameArray R Kn))])),
+  ("sym_ksymmetrize_full", fun j => do
+    -- the whole routine from the un-normalised input: `normalize("all")` is the model of
+    -- Ops/KruskalReparam.lean with the rational services of Driver/C08.lean (square and N-th roots exact when
+    -- rational, else accurate to 2^-80)
+    let K ← field j "K" >>= asKtensor
+    let Kn := normAllOf svcRat K
+    .ok (exceptJ (fun R => Json.mkObj [("R", ktensorJ R), ("Kn", ktensorJ Kn),
+      ("aligned", Json.bool (kaligned Kn))]) (ksymmetrize (normAllOf svcRat) K))),
   ("sym_ksymmetrize_check", fun j => do
     -- rejection side of `ktensor.symmetrize` (the normalisation does not matter for it)
     let K ← field j "K" >>= asKtensor
